@@ -58,7 +58,11 @@ impl Error {
 
         while let Some(err) = source {
             if let Some(io_err) = err.downcast_ref::<std::io::Error>() {
-                return io_err.kind() == std::io::ErrorKind::TimedOut;
+                // a read or write that exceeds the socket timeout fails with `WouldBlock` on unix
+                return matches!(
+                    io_err.kind(),
+                    std::io::ErrorKind::TimedOut | std::io::ErrorKind::WouldBlock
+                );
             }
 
             source = err.source();
